@@ -1097,12 +1097,12 @@ class CSSParser:
         # Ignore whitespace and comments at start and end of pattern
         m = RE_WS_BEGIN.search(pattern)
         index = m.end(0) if m else 0
-        m = RE_WS_END.search(pattern)
-        end = (m.start(0) - 1) if m else (len(pattern) - 1)
+        end = len(pattern) - 1
 
         if self.debug:  # pragma: no cover
             print(f'## PARSING: {pattern!r}')
-        while index <= end:
+        # Stop when only whitespace and comments remain
+        while index <= end and RE_WS_END.match(pattern, index) is None:
             m = None
             for v in self.css_tokens:
                 result = v.match(pattern, index, self.flags)
